@@ -1008,7 +1008,8 @@ fn gen_cases(a: &Args, code: &str) -> Vec<Case> {
     let mut cases = vec![];
     let grid = grid_versions();
     let mut bounds = boundary_versions(code);
-    for h in harvested_versions() {
+    let harvested = harvested_versions();
+    for h in harvested.iter().cloned() {
         if !bounds.contains(&h) {
             bounds.push(h);
         }
@@ -1085,11 +1086,16 @@ fn gen_cases(a: &Args, code: &str) -> Vec<Case> {
                         let mut push = |name: &str, ver: &str, msg: MsgKind| {
                             cases.push(Case::Mig { contract: c, stage: gstage, name: name.to_string(), version: ver.to_string(), msg, legacy_minter: false, strip_flags: false, clock: None, gov });
                         };
+                        // every version literal of the migrate sources (+-1) for every triple; the
+                        // whole boundary list and a grid sample for "blocked" and "all flags"
+                        let wide = c.kind() == Kind::Factory || gov == 2 || gov == 7;
                         for ver in &bounds {
-                            push(own, ver, MsgKind::Nothing);
+                            if wide || harvested.contains(ver) {
+                                push(own, ver, MsgKind::Nothing);
+                            }
                         }
                         for (i, ver) in grid.iter().enumerate() {
-                            if (i + gov as usize) % 10 == 0 {
+                            if wide && (i + gov as usize) % 10 == 0 {
                                 push(own, ver, MsgKind::Nothing);
                             }
                         }
